@@ -5,11 +5,11 @@ E3 enumeration of input texts in five families:
  (b) every single-character insertion, deletion and substitution at every position of 30 valid expressions;
  (c) escape shapes inside each of the three quote styles (all bodies <= 4 over an 18-symbol alphabet, complete
      \\x.. \\u.... \\U........ digit fields over a small alphabet, \\N{..} names, octal runs);
- (d) numerals, identifiers, variables, strings of boundary lengths up to 10**5 (around float overflow and the
+ (d) numerals, identifiers, variables, strings and nested/chained constructs of boundary sizes up to 10**5 (around float overflow and the
      interpreter's int-digit limit);
  (e) every BMP code point alone, embedded in a word, and inside each quote style, plus astral samples.
 Oracle: the outcome is a Statement, or YaqlLexicalException / YaqlGrammarException whose position, when not
-None, is an int with 0 <= position < len(text) (and for a lexical error text[position] is the reported character).
+None, is an int with 0 <= position < len(text) (and for a lexical error the reported character stands at that position).
 """
 import itertools
 import sys
@@ -28,12 +28,12 @@ TITLE = 'parsing is total'
 RULE = ('texts are enumerated exhaustively per family (a)-(e); a case is distinct by (engine, text); every case is '
         'judged (the property quantifies over all strings); it counts as non-trivial when the outcome is not a '
         'lexical error at position 0, i.e. the lexer got past the first token')
-ASSUMPTIONS = ['RecursionError/MemoryError on pathological nesting are implementation limits, not enumerated',
+ASSUMPTIONS = ['nesting deeper than 10**5 (parser stack, memory) is not enumerated',
                'the int-digit limit is read from sys.get_int_max_str_digits(), not assumed']
 BOUNDS = {
     'quick': '(a) <=2 lexemes over 64 and 3 over a 26-lexeme core, x{space,none} x 3 engines; (b) 30 expressions x 46 chars; '
              '(c) bodies <=4 over 18 symbols x 3 styles, \\x \\u fields over {0,1,f,Z,quote}, \\U field over {0,1,f,Z}; '
-             '(d) 18 kinds of token x lengths 1..10**5 (digits-then-letter only up to 4301: quadratic lexing time); (e) all 65536 BMP code points x 5 contexts + 64 astral',
+             '(d) 24 kinds of long token / deep nesting x lengths 1..10**5 (digits-then-letter only up to 4301: quadratic lexing time); (e) all 65536 BMP code points x 5 contexts + 64 astral',
     'thorough': 'as quick with (a) 3 lexemes over all 64, (c) \\U field over {0,1,f,Z,quote} (5**8) x 3 styles, '
                 '(e) additionally every code point of planes 1, 2, 14, 15, 16 alone',
 }
@@ -117,7 +117,8 @@ def verdict(text, out):
         return ('position-not-an-int class=%s' % kind, repr(pos))
     if not 0 <= pos < len(text):
         return ('position-outside-text class=%s' % kind, 'position %r, len(text) %d' % (pos, len(text)))
-    if kind == 'lexical' and text[pos] != out[2]:
+    # "Lexical error: illegal character '{}' at position {}": what is reported must be what stands there
+    if kind == 'lexical' and isinstance(out[2], str) and not text.startswith(out[2], pos):
         return ('lexical-error-character-is-not-at-position', 'reported %r, text[%d] is %r' % (out[2], pos, text[pos]))
     return None
 
@@ -280,12 +281,25 @@ def long_text(what, n):
         return '#' * n
     if what == 'minus-chain':
         return '-' * n + '1'
+    if what == 'nested-parens':
+        return '(' * n + '1' + ')' * n
+    if what == 'nested-lists':
+        return '[' * n + '1' + ']' * n
+    if what == 'nested-calls':
+        return 'f(' * n + '1' + ')' * n
+    if what == 'plus-chain':
+        return '1' + ' + 1' * n
+    if what == 'dot-chain':
+        return 'a' + '.a' * n
+    if what == 'open-parens':
+        return '(' * n
     raise ValueError(what)
 
 
 LONG_KINDS = ['int', 'int0', 'float-int-part', 'float-fraction', 'float-both', 'sum-of-ints', 'arabic-digits',
               'keyword', 'variable', 'function', 'string', 'string-escapes', 'verbatim', 'unterminated',
-              'digits-then-letter', 'underscores', 'illegal', 'minus-chain']
+              'digits-then-letter', 'underscores', 'illegal', 'minus-chain', 'nested-parens', 'nested-lists', 'nested-calls',
+              'plus-chain', 'dot-chain', 'open-parens']
 
 
 # '999...9a' makes the NUMBER rule backtrack quadratically (2 s at 10**4 digits, minutes at 10**5): it terminates,
@@ -347,7 +361,7 @@ def jobs(tier, seed):
             continue            # a quote inside the prefix ends the literal; covered by the shorter fields
         out.append(('c-U-%s' % ''.join(p), 'job_escape_fields', ('U', 8, ualpha, [''.join(p)])))
     out.append(('c-names', 'job_escape_names', ()))
-    for i, sl in enumerate(chunks(LONG_KINDS, 6)):
+    for i, sl in enumerate(chunks(LONG_KINDS, 8)):
         out.append(('d-%d' % i, 'job_long', (sl,)))
     step = 0x10000 // 16
     for i in range(16):
